@@ -48,7 +48,7 @@ func redundantCases(r *Rng, n int, cf *CoqFile, st *Stats) {
 		}
 	}
 	if i != len(keys) {
-		st.Fail("import-conditions-parse", sb.String(), i, len(keys))
+		failC12(st, "import-conditions-parse", sb.String(), i, len(keys))
 		return
 	}
 	chain := func(k int) ([]css_ast.ImportConditions, string, []key) {
